@@ -36,6 +36,9 @@ def run(tier):
     rep.coverage["inputs_by_entry_point"] = kinds
     if not rep.unknown_violations():
         selftest(recs, wd)
+    # specification growth hosted here (cache eviction strategies of the adaptive layer): conformance, informational
+    import growth_cachepol
+    growth_cachepol.run(rep, wd, big)
     return rep.finish(
         rule="random bytes, valid messages of every kind and structure-aware mutations (bit flips, boundary bytes, truncation, extension, "
              "varint blow-ups, splices) fed to the frame parser of the receive loop, DhtNetworkManager::handle_dht_message, "
